@@ -72,7 +72,7 @@ BOUNDS = {
                 "2..5 x 2..5 x 4 modes + lifted tri/quad; 3x3 holey grids tri (92) + quad (12); every weighting over {0,1,2,5} of "
                 "every graph on <=4 vertices (15751) and over {0,1} of every graph on 5 vertices (59048: whole component + every "
                 "pair as vertex set); HISTORIES as in quick with subsets <=3, all three schedules in all 5 modes on GRAPH(<=4) x "
-                "{lattice,generic} and SURF(<=4) 66; subsets <=2, 4 modes on SURF(5) 410 triangle complexes, TET(<=5) 27, grids 2..5 x "
+                "{lattice,generic} and SURF(<=4) 66; subsets <=2, 4 modes on SURF(5) 410 triangle complexes (interleaved + border-only), TET(<=5) 27, grids 2..5 x "
                 "2..5 x 4 modes, 92 holey 3x3 grids",
 }
 
@@ -151,6 +151,7 @@ def _hplan(sub, p2p, vset, mixed, export):
 
 PLAN_HIST_FULL = _hplan(3, ALL5, ALL5, ALL5, ["length", "attr_dense"])
 PLAN_HIST_STD = _hplan(2, STD4, STD4, STD4, ["length"])
+PLAN_HIST_STD_MIXED = _hplan(2, [], [], STD4, ["length"])
 PLAN_HIST_Q_GRAPH = _hplan(2, ["one", "dict"], ["length", "attr"], ALL5, ["length", "attr_dense"])
 PLAN_HIST_Q_SURF = _hplan(2, [], [], ["length", "attr"], ["length"])
 PLAN_HIST_Q_BIG = _hplan(2, [], [], ["length", "dict"], ["length"])
@@ -176,7 +177,7 @@ def _hist_tasks(quick):
     for lo, hi in _chunks(66, 2):
         out.append({"kind": "hist", "of": "surf", "family": "surf<=4", "lo": lo, "hi": hi, "step": 1, "coords": "lattice", "plan": PLAN_HIST_FULL})
     for lo, hi in _chunks(410, 8):
-        out.append({"kind": "hist", "of": "surf", "family": "surf5tri", "lo": lo, "hi": hi, "step": 1, "coords": "lattice", "plan": PLAN_HIST_STD})
+        out.append({"kind": "hist", "of": "surf", "family": "surf5tri", "lo": lo, "hi": hi, "step": 1, "coords": "lattice", "plan": PLAN_HIST_STD_MIXED})
     for lo, hi in _chunks(27, 3):
         out.append({"kind": "hist", "of": "tet", "lo": lo, "hi": hi, "step": 1, "coords": "generic", "plan": PLAN_HIST_STD})
     for k in (2, 3, 4, 5):
